@@ -91,12 +91,21 @@ func runC05(k *kernel.K) {
 
 	var mu sync.Mutex
 	var recs []*c05Rec
+	rewriteConnectURL := w.Chance(1, 4)
+	if rewriteConnectURL {
+		k.Probe("modifier_rewrites_connect_url")
+	}
 	hijackID := -1
 	proxy.SetRequestModifier(martian.RequestModifierFunc(func(req *http.Request) error {
 		ctx := martian.NewContext(req)
 		r := &c05Rec{id: -1, method: req.Method, scheme: req.URL.Scheme, host: req.URL.Host, hasTLS: req.TLS != nil}
 		if req.Method != "CONNECT" {
 			r.id = exchangeID(req.URL.Path)
+		} else if rewriteConnectURL {
+			// what martianurl.Modifier does: the URL is pointed elsewhere, the Host field stays.
+			// Nothing is dialled for a MITM'd CONNECT, so this must not change anything: the
+			// certificate is for the authority the client named, and so is the tunnel's host.
+			req.URL.Host = "rewritten.test:443"
 		}
 		if req.TLS != nil {
 			r.hsDone = req.TLS.HandshakeComplete
